@@ -3,6 +3,7 @@ package interp
 // Path exploration by decision-prefix replay.
 
 import (
+	"math"
 	"encoding/json"
 	"fmt"
 	"go/token"
@@ -42,6 +43,9 @@ type Config struct {
 	// ConcretizeIndex: a symbolic slice index is case-split into its feasible values instead of
 	// becoming conditional loads/stores (better for hash tables whose code branches on cell contents)
 	ConcretizeIndex bool `json:"concretize_index"`
+	// MaxRandDraws > 0: a path that takes more random draws ends there as "bound-cut" (a stated bound,
+	// e.g. string-top resampling repeats until a draw evicts a key: probability-one termination only)
+	MaxRandDraws int `json:"max_rand_draws"`
 }
 
 func (c *Config) defaults() {
@@ -98,6 +102,7 @@ type nondetVar struct {
 	Name string
 	Kind string // "u8", "i64", "bool", "int", "f64bits", ...
 	t    *smt.Term
+	fix  uint // > 0: Int-sorted k standing for the float64 k / 2^fix; the tape gets the float's bits
 }
 
 // TapeEntry is one nondet value for native replay.
@@ -135,6 +140,7 @@ type pathState struct {
 	nfresh    int
 	asserted  int // assertion checks performed
 	nvars     int
+	randDraws int
 	known     string
 	conds     map[*value]*condState
 	wgs       map[*value]*wgState
@@ -166,6 +172,8 @@ type Explorer struct {
 	work       [][]Decision
 	active     int
 	newViol    int
+	retries    map[string]int
+	SolverRestarts int
 	ForkSites  map[string]int // where two-sided forks happened (profiling)
 	stop       bool
 	Paths      int
@@ -313,10 +321,35 @@ func (i *Interp) workerLoop() {
 
 		res := i.runPath(prefix, &solverDecs)
 
+		if res.Outcome == "engine" && strings.Contains(res.Msg, "solver process died") {
+			// a crashed solver (z3 5.1.0 has an intermittent internal assertion failure in its LP
+			// core) says nothing about the path: retry it on a fresh solver process, twice at most
+			key := fmt.Sprint(prefix)
+			ex.mu.Lock()
+			if ex.retries == nil {
+				ex.retries = map[string]int{}
+			}
+			ex.retries[key]++
+			again := ex.retries[key] <= 2
+			if again {
+				ex.SolverRestarts++
+				ex.active--
+				ex.Paths--
+				ex.work = append(ex.work, prefix)
+				ex.cond.Broadcast()
+			}
+			ex.mu.Unlock()
+			if again {
+				if n := len(i.solver.Stats.Errors); n > 0 {
+					i.solver.Stats.Errors = i.solver.Stats.Errors[:n-1]
+				}
+				continue
+			}
+		}
 		ex.mu.Lock()
 		ex.active--
 		ex.Outcomes[res.Outcome]++
-		if res.Outcome != "ok" && res.Outcome != "infeasible" && res.Outcome != "assume-end" && res.Msg != "" {
+		if res.Outcome != "ok" && res.Outcome != "infeasible" && res.Outcome != "assume-end" && res.Outcome != "bound-cut" && res.Msg != "" {
 			m := res.Msg
 			if len(m) > 300 {
 				m = m[:300]
@@ -356,6 +389,11 @@ func (i *Interp) runPath(prefix []Decision, solverDecs *[]Decision) (res PathRes
 		if !d.Forced {
 			keep++
 		}
+	}
+	if i.solver.Dead {
+		i.resetSolver()
+		*solverDecs = (*solverDecs)[:0]
+		k, keep = 0, 0
 	}
 	i.solver.Pop(i.solver.Depth() - keep)
 	if !i.hasPrev {
@@ -411,6 +449,16 @@ func (i *Interp) runPath(prefix []Decision, solverDecs *[]Decision) (res PathRes
 }
 
 // ---- decisions ----
+
+// check runs a solver query; a solver process that died (crash, watchdog kill) ends the path as an
+// engine problem and is replaced before the next path - its answers are never guessed.
+func (i *Interp) check(assumps ...*smt.Term) smt.Result {
+	r := i.solver.Check(assumps...)
+	if i.solver.Dead {
+		panic(pathAbort{"engine", "solver process died during a query (restarted for the next path)"})
+	}
+	return r
+}
 
 func (i *Interp) resetSolver() {
 	i.solver.Restart()
@@ -490,8 +538,8 @@ func (i *Interp) decideCand(cond *smt.Term, cand int64) bool {
 	}
 	p.fresh = true
 	p.nfresh++
-	rT := i.solver.Check(cond)
-	rF := i.solver.Check(c.Not(cond))
+	rT := i.check(cond)
+	rF := i.check(c.Not(cond))
 	if os.Getenv("GOSX_DECDBG") != "" && i.curInstr != nil {
 		cs := cond.String()
 		if len(cs) > 200 {
@@ -556,7 +604,7 @@ func (i *Interp) concretize(t *smt.Term, what string) uint64 {
 		if idx < len(p.prefix) {
 			cand = uint64(p.prefix[idx].Cand)
 		} else {
-			if r := i.solver.Check(); r != smt.Sat {
+			if r := i.check(); r != smt.Sat {
 				if r == smt.Unsat {
 					panic(pathAbort{"infeasible", "path condition unsatisfiable"})
 				}
@@ -587,7 +635,7 @@ func (i *Interp) concretizeInt(s sym, what string) int64 {
 		if idx < len(p.prefix) {
 			cand = p.prefix[idx].Cand
 		} else {
-			if r := i.solver.Check(); r != smt.Sat {
+			if r := i.check(); r != smt.Sat {
 				if r == smt.Unsat {
 					panic(pathAbort{"infeasible", "path condition unsatisfiable"})
 				}
@@ -677,6 +725,10 @@ func (i *Interp) modelTape() []TapeEntry {
 			e.V = new(big.Int).SetUint64(vals[j].U).String()
 		case smt.KInt:
 			e.V = vals[j].Big.String()
+			if nv.fix > 0 {
+				f, _ := new(big.Float).SetInt(vals[j].Big).Float64()
+				e.V = new(big.Int).SetUint64(math.Float64bits(math.Ldexp(f, -int(nv.fix)))).String()
+			}
 		}
 		tape[j] = e
 	}
@@ -737,13 +789,13 @@ func (i *Interp) assertProp(name string, cond value) {
 		i.ex.countAssert(name, true)
 		return
 	}
-	r := i.solver.Check(c.Not(t))
+	r := i.check(c.Not(t))
 	switch r {
 	case smt.Unsat:
 		i.ex.countAssert(name, true)
 	case smt.Sat:
 		i.recordViolation("assert", name, "assertion can fail")
-		if t.IsFalse() || i.solver.Check(t) == smt.Unsat {
+		if t.IsFalse() || i.check(t) == smt.Unsat {
 			panic(pathAbort{"assume-end", "assertion fails for every input on this path"})
 		}
 		i.assume(t)
@@ -774,7 +826,7 @@ func (i *Interp) assumeProp(cond value) {
 	p := i.path
 	i.assume(t)
 	if p.fresh {
-		if i.solver.Check() == smt.Unsat {
+		if i.check() == smt.Unsat {
 			panic(pathAbort{"assume-end", "assumption unsatisfiable on this path"})
 		}
 	}
